@@ -86,7 +86,7 @@ def gen(rng: Any, tier: str, i: int) -> Any:
         # _internal/_asyncio.cancel_and_await on a bare task (what Resampler.stop(), FormulaEngine._stop() and the
         # pools use to stop their tasks)
         return {"kind": "helper", "state": rng.choice(["running", "running", "running", "done-result", "done-exception"]),
-                "on_cancel": rng.choice(["propagate", "exc", "exc-after-cleanup", "swallow", "base"]),
+                "on_cancel": rng.choice(["propagate", "exc", "exc-after-cleanup", "swallow"]),
                 "cleanup": rng.choice([0.0, 0.5, 3.0])}
     if kind == "service":
         tasks = [{"d": rng.choice([0.0, 1.0, 3.0, 100.0]), "outcome": rng.choice(["ret", "exc", "exc2", "block", "base"]),
